@@ -14,6 +14,7 @@ oracle (implementation only, independent spec in c20_spec.py): documented classi
 Each case is a JSON-able "witness" dict; streams only build witnesses, `process` evaluates them (also used by
 replay, the corpus and the known findings).
 """
+import email.utils
 import glob
 import io
 import itertools
@@ -22,19 +23,12 @@ import logging
 import os
 import re
 from email.message import Message
-from html.parser import HTMLParser
 from http.client import HTTPMessage
 
 from lib.framework import Check, enc, time_limit
 from harness import c20_spec as S
 
-KF_SHORT = 'C20-xml-short'
-KF_BINARY = 'C20-xml-binary-file'
-KF_DECLWS = 'C20-xmldecl-whitespace'
-KF_STRAY = 'C20-xmldecl-stray-attribute'
-KF_VALUELESS = 'C20-meta-valueless-attribute'
-KF_RFC2231 = 'C20-meta-rfc2231-charset'
-KF_RELIT = 'C20-regex-literal-media-type'
+KF_SHORT = 'C20-xml-short'      # the only finding still open; the others are fixed (known/C20.json)
 
 _silent = logging.getLogger('c20-silent')
 _silent.addHandler(logging.NullHandler())
@@ -112,39 +106,12 @@ def meta_raw(E, text):
     try:
         m = Message()
         m['content-type'] = p.content_type
-        return ('found', m.get_content_type(), m.get_param('charset'))
+        cs = m.get_param('charset')
+        if isinstance(cs, tuple):       # RFC 2231: the model is given what email.utils makes of the triple
+            cs = ('T', email.utils.collapse_rfc2231_value(cs))
+        return ('found', m.get_content_type(), cs)
     except Exception as e:          # noqa: BLE001
         return ('raises', type(e).__name__)
-
-
-class _MetaScan(HTMLParser):
-    """independent of encutils: the <meta> start tags of a document in order"""
-    def __init__(self):
-        super().__init__()
-        self.metas = []
-
-    def handle_starttag(self, tag, attrs):
-        if tag == 'meta':
-            self.metas.append(attrs)
-
-
-def meta_regions(doc):
-    """-> (valueless, rfc2231): a <meta> start tag with a value-less attribute is met before a Content-Type <meta>
-    with a content has been found; the first such Content-Type content carries an RFC 2231 `charset*` parameter"""
-    sc = _MetaScan()
-    try:
-        sc.feed(doc)
-    except Exception:               # noqa: BLE001
-        return (False, False)
-    for attrs in sc.metas:
-        if any(v is None for _, v in attrs):
-            return (True, False)
-        d = {a.lower(): v.lower() for a, v in attrs}
-        if d.get('http-equiv', '').strip() == 'content-type' and d.get('content'):
-            m = Message()
-            m['content-type'] = d['content']
-            return (False, isinstance(m.get_param('charset'), tuple))
-    return (False, False)
 
 
 # ----------------------------------------------------------------------------------------------
@@ -206,6 +173,7 @@ class C20(Check):
         'translator tools/gen/c20_tables.py (ast): constants, the if/elif ladder, lists, regexes (through '
         'tools/gen/relib.py into Re terms), bomDict, defaultencodings, read sizes',
         'not modelled, inputs of the model: email.message.Message (header and parameter parsing), '
+        'email.utils.collapse_rfc2231_value, '
         'html.parser.HTMLParser (+ the 6-line _MetaHTMLParser callback), io.StringIO/BytesIO seek/tell/read, '
         'tryEncodings (proved unreachable for the generated defaults table), the log, the url= parameter',
         'sre-faithfulness of Re.ms for the three regexes (validated each run by the correspondence on generated '
@@ -472,6 +440,16 @@ class C20(Check):
                     w['meta_charset'] = None    # the read fails: the document is ''
             ws.append(w)
         # documents that the meta sniffer must survive
+        for t, me in [('<meta charset><meta http-equiv="Content-Type" content="text/html;charset=After">', 'After'),
+                      ('<meta itemscope itemtype=x>', None),
+                      ('<meta http-equiv="content-type" content="text/html;charset*=utf-8\'\'ISO-8859-15">', 'ISO-8859-15'),
+                      ('<meta http-equiv="Content-Type" content=\'text/html;charset*="us-ascii\'en\'X%2DEnc"\'>', None)]:
+            for mt in ('text/html', 'text/plain', 'text/css', 'application/xml'):
+                w = {'call': 'getEncodingInfo', 'text': t + 'padding', 'bytes': False, 'stream': 'info-meta',
+                     'resp': {'kind': 'message', 'content_type': mt, 'body': None}, 'media_type': mt, 'charset': None}
+                if me is not None or 'itemscope' in t:
+                    w['meta_charset'] = me
+                ws.append(w)
         for t in ['<meta charset>', '<meta http-equiv content="text/html;charset=x">', '<META foo><meta http-equiv="Content-Type" content="text/html;charset=x">',
                   '<meta http-equiv="content-type" content="text/html;charset*=utf-8\'\'abc">', '<meta http-equiv="content-type" content>',
                   '</ >', '<![if x]>', '<meta http-equiv="Content-Type" content="text/html;charset=x"><meta bar>', '<!DOCTYPE html><meta http-equiv=Content-Type content=text/html;charset=q>']:
@@ -569,7 +547,7 @@ class C20(Check):
         mr = meta_raw(E, eff)
         if mr[0] == 'found':
             p = mr[2]
-            mwords = 'found %s %s' % (enc(mr[1]), 'N' if p is None else ('T' if isinstance(p, tuple) else enc(p)))
+            mwords = 'found %s %s' % (enc(mr[1]), 'N' if p is None else ('T' + enc(p[1]) if isinstance(p, tuple) else enc(p)))
         else:
             mwords = '%s - N' % mr[0]
         line = 'info %d %s %s %s %s %s N' % (resp is not None, opt(mt), opt(cs), opt(body), opt(text), mwords)
@@ -608,13 +586,12 @@ class C20(Check):
                  'css': E._TEXT_UTF8, 'text': E._TEXT_TYPE, 'other': E._OTHER_TYPE}
         ctx.case(key=('classify', mt), nontrivial=cls != 'other', kind='classify:' + cls,
                  sample={'media_type': mt, 'class': cls, 'default': S.DEFAULTS[cls]})
-        k = KF_RELIT if S.region_regex_literal(mt) else None
         if pl['impl'][0] != str(codes[cls]):
             ctx.violate('media-type classification as documented (application/xml family, text/xml family, text/html, '
-                        'text/css, other text/*, other)', w, {'impl': pl['impl'][0], 'spec': cls, 'code': codes[cls]}, known=k)
+                        'text/css, other text/*, other)', w, {'impl': pl['impl'][0], 'spec': cls, 'code': codes[cls]})
         if pl['impl'][1] != opt(S.DEFAULTS[cls]):
             ctx.violate('media-type default encoding as documented (utf-8 / ascii / iso-8859-1 / utf-8 for text/css / none)',
-                        w, {'impl': pl['impl'][1], 'spec': S.DEFAULTS[cls]}, known=k)
+                        w, {'impl': pl['impl'][1], 'spec': S.DEFAULTS[cls]})
 
     def oracle_sniff(self, ctx, E, w, pl):
         d, form, pos, incl = w['doc'], w['form'], w.get('pos', 0), w.get('includeDefault', True)
@@ -624,11 +601,7 @@ class C20(Check):
                  kind='sniff:%s:%s' % (form, st), sample={'doc': d[:80], 'form': form, 'pos': pos, 'impl': list(res)})
         if w.get('oracle') is False:
             return
-        known = None
-        if form == 'BytesIO' and len(d) > 0:
-            known = KF_BINARY
-        elif S.region_short(d):
-            known = KF_SHORT
+        known = KF_SHORT if S.region_short(d) else None
         clause_val = 'XML sniffing returns the BOM\'s encoding if there is a BOM, else the declared encoding, else UTF-8'
         if res[0] == 'ERR':
             ctx.violate(clause_val + ' (it raised)', w, {'impl': list(res)}, known=known)
@@ -637,30 +610,24 @@ class C20(Check):
                 ctx.violate(clause_val, w, {'impl': res[1], 'spec': want}, known=known)
         elif st == 'exact':
             if res[1] != want:
-                k = known or (KF_DECLWS if S.region_decl_whitespace(d) else
-                              KF_STRAY if S.region_stray_attribute(d) else None)
-                ctx.violate(clause_val, w, {'impl': res[1], 'spec': want}, known=k)
+                ctx.violate(clause_val, w, {'impl': res[1], 'spec': want}, known=known)
         if res[0] == 'OK' and isinstance(res[1], str) and res[1] != res[1].lower():
             ctx.violate('the sniffed encoding is lower-case', w, {'impl': res[1]})
         if pl['isfile'] and pl['after'] != pos:
             ctx.violate('XML sniffing leaves the stream position untouched', w, {'before': pos, 'after': pl['after'],
-                                                                              'impl': list(res)}, known=known)
+                                                                              'impl': list(res)})
 
     def oracle_info(self, ctx, E, w, pl):
         res, doc = pl['res'], as_text(pl['eff'])
         has_resp = w['resp'] is not None
-        valueless, rfc2231 = meta_regions(doc)
         cls_guess = S.spec_classify(pl['mt']) if has_resp else S.absent_class(doc)
         srcs = (cls_guess not in ('other', None)) or bool(S.spec_bom(doc)) or doc.startswith('<?xml') or '<meta' in doc.lower()
         ctx.case(key=('info', json.dumps(w, sort_keys=True)), nontrivial=srcs,
                  kind='%s:%s' % (w.get('stream', 'info'), cls_guess),
                  sample={'resp': w['resp'], 'text': (w['text'] or '')[:100], 'bytes': w.get('bytes'), 'impl': list(res)})
         if res[0] == 'ERR':
-            k = None
-            if cls_guess in ('html', 'text'):
-                k = KF_VALUELESS if valueless else KF_RFC2231 if rfc2231 else None
             ctx.violate('for every document the encoding is reported by the documented rules (the call raised)', w,
-                        {'impl': list(res)}, known=k)
+                        {'impl': list(res)})
             return
         if res[0] != 'OK':
             ctx.violate('mismatch is a flag', w, {'impl': list(res)})
@@ -672,7 +639,7 @@ class C20(Check):
         if mismatch != S.known3(http_enc, xml_enc, meta_enc):
             ctx.violate('mismatch is set exactly when two of the encodings determined from transport, XML sniffing and '
                         'HTML meta are both known and differ', w, {'impl': list(res)})
-        if 'meta_charset' not in w or (cls_guess in ('html', 'text') and (valueless or rfc2231)):
+        if 'meta_charset' not in w:
             return
         # the documented table
         charset = pl['cs'] if has_resp else None
@@ -690,8 +657,7 @@ class C20(Check):
         if bad:
             k = None
             if exp['class'] in ('appxml', 'html') and set(bad) <= {'encoding', 'mismatch', 'xml'}:
-                k = (KF_SHORT if S.region_short(doc) else KF_DECLWS if S.region_decl_whitespace(doc) else
-                     KF_STRAY if S.region_stray_attribute(doc) else None)
+                k = KF_SHORT if S.region_short(doc) else None
             ctx.violate('documented precedence: transport charset; XML encoding for application/xml types; meta then '
                         'media-type default for text/html; media-type default for other text types (utf-8 for text/css, '
                         'ascii for text/xml with the XML declaration ignored); fields: ' + ','.join(bad),
